@@ -12,7 +12,6 @@ import (
 	"crypto/tls"
 	"crypto/x509"
 	"crypto/x509/pkix"
-	"encoding/binary"
 	"encoding/pem"
 	"fmt"
 	"io"
@@ -32,10 +31,10 @@ import (
 // ---------- throw-away PKI in a temp dir
 
 type pki struct {
-	dir                                        string
+	dir                                       string
 	caPEM, certPEM, keyPEM, cert2PEM, key2PEM []byte
-	otherCert                                  *x509.Certificate
-	tlsCert                                    tls.Certificate
+	otherCert                                 *x509.Certificate
+	tlsCert                                   tls.Certificate
 }
 
 func mkCert(cn string) (certPEM, keyPEM []byte, cert *x509.Certificate) {
@@ -177,6 +176,16 @@ func frameFor(tok string) (byte, []byte) {
 		return opError, append(b, msg...)
 	case tok == "other":
 		return opResult, []byte{0, 0, 0, 1}
+	case strings.HasPrefix(tok, "chal:"), strings.HasPrefix(tok, "succ:"):
+		d, err := vh.UnHex(tok[5:])
+		if err != nil {
+			panic("bad payload")
+		}
+		b := []byte{byte(len(d) >> 24), byte(len(d) >> 16), byte(len(d) >> 8), byte(len(d))}
+		if tok[0] == 'c' {
+			return opAuthChallenge, append(b, d...)
+		}
+		return opAuthSuccess, append(b, d...)
 	case strings.HasPrefix(tok, "auth:"):
 		cls, err := vh.UnHex(tok[5:])
 		if err != nil || len(cls) > 65535 {
@@ -188,55 +197,22 @@ func frameFor(tok string) (byte, []byte) {
 	panic("bad frame token " + tok)
 }
 
-// serve answers each request with the next scripted frame; closes when the script is exhausted.
-func serve(c net.Conn, script []string, sent *[]string, done chan struct{}) {
-	defer close(done)
-	defer c.Close()
-	for i := 0; ; i++ {
-		var h [9]byte
-		if _, err := io.ReadFull(c, h[:]); err != nil {
-			return
-		}
-		n := binary.BigEndian.Uint32(h[5:9])
-		body := make([]byte, n)
-		if _, err := io.ReadFull(c, body); err != nil {
-			return
-		}
-		switch h[4] {
-		case opOptions:
-			*sent = append(*sent, "options")
-		case opStartup:
-			*sent = append(*sent, "startup")
-		case opAuthResponse:
-			tok := "malformed"
-			if len(body) >= 4 {
-				l := int(int32(binary.BigEndian.Uint32(body[:4])))
-				if l >= 0 && 4+l == len(body) {
-					tok = vh.Hex(body[4:])
-				}
-			}
-			*sent = append(*sent, "authresp:"+tok)
-		default:
-			*sent = append(*sent, fmt.Sprintf("op%d", h[4]))
-		}
-		if i >= len(script) {
-			return
-		}
-		op, rb := frameFor(script[i])
-		out := []byte{0x84, 0, h[2], h[3], op, 0, 0, 0, 0}
-		binary.BigEndian.PutUint32(out[5:], uint32(len(rb)))
-		if _, err := c.Write(append(out, rb...)); err != nil {
-			return
-		}
-	}
-}
-
 func classify(err error) string {
 	if err == nil {
 		return "ready"
 	}
 	m := err.Error()
 	switch {
+	case strings.Contains(m, errAuthenticator.Error()):
+		return "err:authenticator"
+	case strings.Contains(m, errAuthSuccess.Error()):
+		return "err:auth-success"
+	case strings.Contains(m, errProvider.Error()):
+		return "err:provider"
+	case strings.Contains(m, "Can't use both Authenticator and AuthProvider"):
+		return "err:both"
+	case strings.Contains(m, "x509:") || strings.Contains(m, "tls:"):
+		return "err:tls-verify"
 	case strings.Contains(m, "Unknown type of response to startup frame"):
 		return "err:protocol"
 	case strings.Contains(m, "authentication required"):
@@ -246,7 +222,7 @@ func classify(err error) string {
 	case strings.Contains(m, "unknown frame response during authentication"):
 		return "err:auth-frame"
 	}
-	if _, ok := err.(gocql.RequestError); ok {
+	if _, ok := err.(gocql.RequestError); ok || strings.Contains(m, "bad credentials") {
 		return "err:server"
 	}
 	if err == io.EOF || strings.Contains(m, "closed pipe") || strings.Contains(m, "EOF") {
@@ -268,41 +244,6 @@ func parseList(s string) []string {
 		l = append(l, string(b))
 	}
 	return l
-}
-
-func handshake(authTok string, script []string) string {
-	var auth gocql.Authenticator
-	if authTok != "none" {
-		p := strings.Split(authTok, ":")
-		if len(p) != 4 || p[0] != "pw" {
-			panic("bad auth")
-		}
-		u, e1 := vh.UnHex(p[1])
-		pw, e2 := vh.UnHex(p[2])
-		if e1 != nil || e2 != nil {
-			panic("bad hex")
-		}
-		auth = gocql.PasswordAuthenticator{Username: string(u), Password: string(pw), AllowedAuthenticators: parseList(p[3])}
-		// D12 (recorded under C05): AUTH_CHALLENGE to PasswordAuthenticator dereferences a nil challenger on a
-		// driver goroutine and kills the process; the model answers `crash`, the harness does not execute it.
-		seenAuth := false
-		for i, f := range script {
-			if strings.HasPrefix(f, "auth:") && i == 1 && script[0] == "sup" {
-				seenAuth = gocql.VerifApprove(string(mustHex(f[5:])), parseList(p[3]))
-			}
-			if f == "chal" && i == 2 && seenAuth {
-				return "not-executed:D12"
-			}
-		}
-	}
-	cli, srv := net.Pipe()
-	var sent []string
-	done := make(chan struct{})
-	go serve(srv, script, &sent, done)
-	err := gocql.VerifStartup(cli, auth, 4, 5*time.Second)
-	cli.Close()
-	<-done
-	return "sent=" + strings.Join(sent, ",") + " outcome=" + classify(err)
 }
 
 func mustHex(s string) []byte {
@@ -467,8 +408,6 @@ func exec(op string) (res string) {
 			return "unexpected-challenger"
 		}
 		return vh.Hex(resp)
-	case "hs":
-		return handshake(w[1], w[2:])
 	// ---- property oracles
 	case "verify":
 		o := &gocql.SslOptions{EnableHostVerification: w[2] == "true"}
@@ -510,25 +449,6 @@ func exec(op string) (res string) {
 			return "error"
 		}
 		return "config"
-	case "hsnoauth":
-		a := handshake("none", w[1:])
-		res := "refused"
-		if strings.HasSuffix(a, "outcome=ready") {
-			res = "ready"
-		}
-		cs := "0"
-		if strings.Contains(a, "authresp") {
-			cs = "1"
-		}
-		return res + " credentials-sent=" + cs
-	case "disclose":
-		a := handshake(w[1], []string{"sup", "auth:" + w[2], "succ"})
-		i := strings.Index(a, "authresp:")
-		if i < 0 {
-			return "none"
-		}
-		t := a[i+len("authresp:"):]
-		return "token:" + t[:strings.IndexAny(t, ", ")]
 	case "snihost":
 		port, err := strconv.Atoi(string(mustHex(w[2])))
 		if err != nil {
@@ -653,45 +573,348 @@ func genHost(r *vh.Rng) (string, string) {
 	}
 }
 
+// ---------- generators of authenticator configurations and server scripts
+
+func genCustom(r *vh.Rng) string {
+	n := [...]int{0, 1, 1, 2, 2, 3}[r.Intn(6)]
+	var rs []string
+	for i := 0; i < n; i++ {
+		resp := r.Bytes(r.Intn(5))
+		f, l := "0", "0"
+		if r.Intn(7) == 0 {
+			f = "1"
+		}
+		if r.Intn(4) == 0 {
+			l = "1"
+		}
+		rs = append(rs, vh.Hex(resp)+"."+f+l)
+	}
+	rounds := "none"
+	if n > 0 {
+		rounds = strings.Join(rs, ",")
+	}
+	sf := "0"
+	if r.Intn(4) == 0 {
+		sf = "1"
+	}
+	return "cu:" + rounds + ":" + sf
+}
+
+func genPw(r *vh.Rng, cls string) string {
+	return "pw:" + vh.Hex(genCred(r)) + ":" + vh.Hex(genCred(r)) + ":" + genAllowed(r, cls)
+}
+
+// an authenticator (never none)
+func genAuthImpl(r *vh.Rng, cls string) string {
+	if r.Intn(3) == 0 {
+		return genCustom(r)
+	}
+	return genPw(r, cls)
+}
+
+// what a provider returns for one host
+func genProvRes(r *vh.Rng, cls string) string {
+	switch r.Intn(8) {
+	case 0, 1:
+		return "nil"
+	case 2:
+		return "err"
+	case 3:
+		return genAuthImpl(r, cls) + "+err"
+	default:
+		return genAuthImpl(r, cls)
+	}
+}
+
+// a provider table over hosts 1..3 (+ default); `force` (if not "") is the result for host h
+func genProvider(r *vh.Rng, cls string, h int, force string) string {
+	var es []string
+	explicit := r.Intn(3) != 0 // the dialled host has its own entry / falls under the default
+	for k := 1; k <= 3; k++ {
+		if k == h {
+			if explicit {
+				res := force
+				if res == "" {
+					res = genProvRes(r, cls)
+				}
+				es = append(es, fmt.Sprintf("%d=%s", k, res))
+			}
+			continue
+		}
+		if r.Bool() {
+			es = append(es, fmt.Sprintf("%d=%s", k, genProvRes(r, cls)))
+		}
+	}
+	if !explicit {
+		res := force
+		if res == "" {
+			res = genProvRes(r, cls)
+		}
+		es = append(es, "*="+res)
+	} else if r.Bool() {
+		es = append(es, "*="+genProvRes(r, cls))
+	}
+	if len(es) == 0 {
+		es = append(es, "*=nil")
+	}
+	return strings.Join(es, "/")
+}
+
+// host, static Authenticator, AuthProvider
+func genConn(r *vh.Rng, cls string) string {
+	h := 1 + r.Intn(3)
+	static, prov := "none", "-"
+	switch r.Intn(10) {
+	case 0: // nothing configured
+	case 1, 2: // static only
+		static = genAuthImpl(r, cls)
+	case 3: // both (NewSession refuses it; Conn.init lets the provider decide)
+		static = genAuthImpl(r, cls)
+		prov = genProvider(r, cls, h, "")
+	case 4, 5: // provider without credentials for the dialled host
+		prov = genProvider(r, cls, h, "nil")
+	default:
+		prov = genProvider(r, cls, h, "")
+	}
+	return fmt.Sprintf("host=%d static=%s prov=%s", h, static, prov)
+}
+
+// a configuration WITHOUT credentials for the dialled host
+func genNoCred(r *vh.Rng, cls string) string {
+	h := 1 + r.Intn(3)
+	prov := "-"
+	if r.Intn(4) != 0 {
+		prov = genProvider(r, cls, h, "nil")
+	}
+	return fmt.Sprintf("host=%d static=none prov=%s", h, prov)
+}
+
+// password / no credentials / provider error for the dialled host, never both Authenticator and AuthProvider
+func genPwConn(r *vh.Rng, cls string) string {
+	h := 1 + r.Intn(3)
+	switch r.Intn(6) {
+	case 0:
+		return fmt.Sprintf("host=%d static=%s prov=-", h, genPw(r, cls))
+	case 1:
+		return fmt.Sprintf("host=%d static=none prov=%s", h, genProvider(r, cls, h, "nil"))
+	case 2:
+		return fmt.Sprintf("host=%d static=none prov=%s", h, genProvider(r, cls, h, []string{"err", genPw(r, cls) + "+err"}[r.Intn(2)]))
+	default:
+		return fmt.Sprintf("host=%d static=none prov=%s", h, genProvider(r, cls, h, genPw(r, cls)))
+	}
+}
+
+func genChal(r *vh.Rng) string {
+	if r.Intn(3) == 0 {
+		return "chal"
+	}
+	return "chal:" + vh.Hex(r.Bytes(r.Intn(6)))
+}
+
+func genSucc(r *vh.Rng) string {
+	if r.Intn(2) == 0 {
+		return "succ"
+	}
+	return "succ:" + vh.Hex(r.Bytes(r.Intn(6)))
+}
+
+// server script around an AUTHENTICATE for cls: challenge rounds and every kind of ending
+func genAuthScript(r *vh.Rng, cls string) []string {
+	script := []string{"sup", "auth:" + vh.Hex([]byte(cls))}
+	k := [...]int{0, 0, 0, 1, 1, 2, 3}[r.Intn(7)]
+	for i := 0; i < k; i++ {
+		script = append(script, genChal(r))
+	}
+	switch r.Intn(9) {
+	case 0:
+	case 1:
+		script = append(script, "rdy")
+	case 2:
+		script = append(script, "err")
+	case 3:
+		script = append(script, "other")
+	case 4:
+		script = append(script, "auth:"+vh.Hex([]byte(cls)))
+	case 5:
+		script = append(script, genSucc(r), "rdy")
+	default:
+		script = append(script, genSucc(r))
+	}
+	return script
+}
+
+func genScript(r *vh.Rng, cls string) []string {
+	switch r.Intn(8) {
+	case 0:
+		return [][]string{{"sup", "rdy"}, {"sup"}, {"rdy"}, {"sup", "succ"}, {"sup", "other"}, {"succ"}, {}, {"sup", "err"}, {"sup", "chal"}, {"sup", "sup"}}[r.Intn(10)]
+	case 1:
+		frames := []string{"sup", "rdy", "chal", "succ", "err", "other", "auth:" + vh.Hex([]byte(cls))}
+		script := make([]string, r.Intn(5))
+		for i := range script {
+			script[i] = frames[r.Intn(len(frames))]
+		}
+		return script
+	default:
+		return genAuthScript(r, cls)
+	}
+}
+
+// a caller-supplied authenticator and a server script that fit together: k challenge rounds answered, then success
+func genCoherent(r *vh.Rng, cls string) (string, []string) {
+	k := r.Intn(4)
+	var rs []string
+	for i := 0; i <= k; i++ {
+		fl := "00"
+		if i == k && r.Bool() {
+			fl = "01"
+		}
+		rs = append(rs, vh.Hex(r.Bytes(1+r.Intn(4)))+"."+fl)
+	}
+	sf := "0"
+	if r.Intn(5) == 0 {
+		sf = "1"
+	}
+	script := []string{"sup", "auth:" + vh.Hex([]byte(cls))}
+	for i := 0; i < k; i++ {
+		script = append(script, genChal(r))
+	}
+	return "cu:" + strings.Join(rs, ",") + ":" + sf, append(script, genSucc(r))
+}
+
+// end-to-end TLS scenario arguments: <cfg> <ehv> <ca> <auth> <class> <certA> <certB> <dial>…
+func genTLSArgs(r *vh.Rng) string {
+	cfg := "nil"
+	if r.Intn(4) != 0 {
+		cfg = fmt.Sprintf("I%dS%dR%d", r.Intn(2), [...]int{0, 0, 1}[r.Intn(3)], r.Intn(2))
+	}
+	ca := []string{"absent", "valid", "valid"}[r.Intn(3)]
+	cls := defaults[r.Intn(len(defaults))]
+	if r.Intn(6) == 0 {
+		cls = genClass(r)
+	}
+	auth := genPw(r, cls)
+	if r.Intn(8) == 0 {
+		auth = "none"
+	}
+	kinds := []string{"good", "good", "good", "poolgood", "poolgood", "peer", "other", "rogue"}
+	dialKinds := []string{"a:n", "b:n", "a:n", "b:n", "a:i", "b:i"}
+	n := 1 + r.Intn(3)
+	dials := make([]string, n)
+	for i := range dials {
+		dials[i] = dialKinds[r.Intn(len(dialKinds))]
+	}
+	if n >= 2 && r.Bool() { // both nodes by name through the one session configuration
+		dials[0], dials[1] = "a:n", "b:n"
+		if r.Bool() {
+			dials[0], dials[1] = "b:n", "a:n"
+		}
+	}
+	return fmt.Sprintf("%s %d %s %s %s %s %s %s", cfg, r.Intn(2), ca, auth, vh.Hex([]byte(cls)),
+		kinds[r.Intn(len(kinds))], kinds[r.Intn(len(kinds))], strings.Join(dials, " "))
+}
+
+// ---------- cases
+
+type pending struct {
+	op    string
+	ans   string
+	class func(ans string) string
+}
+
 func main() {
 	mode, tier, path := vh.Args()
+	if mode == "child" {
+		childMain(path)
+		return
+	}
 	thePKI = newPKI()
 	defer os.RemoveAll(thePKI.dir)
 	defaults = gocql.VerifDefaultApprovedAuthenticators()
+	var cases []*pending
+	var slowCase *pending
+	// answers: ops that reach driver goroutines are run afterwards, in child processes
+	resolve := func() {
+		var idx []int
+		var ops []string
+		for i, c := range cases {
+			if isChildOp(c.op) {
+				idx = append(idx, i)
+				ops = append(ops, c.op)
+			}
+		}
+		res, answered := runScenarios(ops)
+		for k, rw := range res {
+			if !answered[k] {
+				// say so in the stream: the model's answer to `slowrun` is that no scenario waits
+				for j := 0; j < k; j++ {
+					if res[j].slow || strings.HasPrefix(res[j].fatal, "hang:") {
+						slowCase = &pending{op: "slowrun " + ops[j], ans: "scenario-exceeded-15s:" + res[j].outcome + res[j].fatal,
+							class: func(string) string { return "slowrun" }}
+						break
+					}
+				}
+				// the campaign was cut short (scenarios sat out the driver's own time-outs): keep the answered prefix
+				fmt.Fprintf(os.Stderr, "c20: %d slow scenarios, case stream cut at case %d of %d\n", maxSlow, idx[k], len(cases))
+				cases = cases[:idx[k]]
+				break
+			}
+			cases[idx[k]].ans = format(ops[k], rw)
+		}
+		if scratch != "" {
+			os.RemoveAll(scratch)
+		}
+	}
 	if mode == "replay" {
 		for _, l := range vh.ReadLines(path) {
-			fmt.Println(exec(l))
+			c := &pending{op: l}
+			if !isChildOp(l) {
+				c.ans = exec(l)
+			}
+			cases = append(cases, c)
+		}
+		resolve()
+		for _, c := range cases {
+			fmt.Println(c.ans)
+		}
+		if slowCase != nil {
+			fmt.Println(slowCase.ans)
 		}
 		return
 	}
 	r := vh.NewRng(vh.EnvSeed())
 	out := vh.NewOut(path)
-	mult := 1
+	mult, hm := 1, 4 // hm: multiplier of the handshake scenarios (cheap: run in batches in child processes)
 	if tier == "thorough" {
-		mult = 30
+		mult, hm = 30, 60
 	}
+	// add records a case; in-process ops are answered at once (the answer is returned), child ops later ("")
+	add := func(op string, class func(ans string) string) string {
+		c := &pending{op: op, class: class}
+		if !isChildOp(op) {
+			c.ans = exec(op)
+		}
+		cases = append(cases, c)
+		return c.ans
+	}
+	fixed := func(cl string) func(string) string { return func(string) string { return cl } }
 	// documented tables: all three copies, the whole domain
 	for _, f := range []string{"doc.go", "conn.go", "connectionpool.go"} {
 		for _, c := range []string{"nil", "false", "true"} {
 			for _, e := range []string{"false", "true"} {
-				op := "doc " + f + " " + c + " " + e
-				out.Case(op, exec(op), "doc/"+f, true)
+				add("doc "+f+" "+c+" "+e, fixed("doc/"+f))
 			}
 		}
 	}
 	// property oracles (first in the stream: the check driver keeps the first 50 disagreements)
 	for _, c := range []string{"nil", "false", "true"} {
 		for _, e := range []string{"false", "true"} {
-			op := "verify " + c + " " + e
-			out.Case(op, exec(op), "oracle/verify", true)
+			add("verify "+c+" "+e, fixed("oracle/verify"))
 		}
 	}
 	for _, ca := range fileStates["ca"] {
 		for _, cert := range fileStates["cert"] {
 			for _, key := range fileStates["key"] {
-				op := "badfile " + ca + " " + cert + " " + key
-				a := exec(op)
-				out.Case(op, a, "oracle/badfile/"+a, true)
+				add("badfile "+ca+" "+cert+" "+key, func(a string) string { return "oracle/badfile/" + a })
 			}
 		}
 	}
@@ -700,36 +923,99 @@ func main() {
 			for _, files := range [][3]string{{"absent", "absent", "absent"}, {"valid", "absent", "absent"}, {"valid", "valid", "valid"},
 				{"absent", "valid", "valid"}, {"unparsable/garbage", "valid", "valid"}, {"valid", "valid", "foreign"}} {
 				for _, spare := range []string{"0", "1"} {
-					op := strings.Join([]string{"untouched", cfg, ehv, files[0], files[1], files[2], spare}, " ")
-					a := exec(op)
-					out.Case(op, a, "oracle/"+a, true)
+					add(strings.Join([]string{"untouched", cfg, ehv, files[0], files[1], files[2], spare}, " "),
+						func(a string) string { return "oracle/" + a })
 				}
 			}
 		}
 	}
-	for i := 0; i < 150*mult; i++ {
+	first := func(a string) string { return strings.Fields(a)[0] }
+	tokOrNone := func(pfx string) func(string) string {
+		return func(a string) string {
+			if strings.HasPrefix(a, "token:") {
+				return pfx + "token"
+			}
+			return pfx + first(a)
+		}
+	}
+	for i := 0; i < 150*hm; i++ {
 		cls := genClass(r)
 		tail := [][]string{{}, {"succ"}, {"rdy"}, {"err"}, {"other"}, {"succ", "rdy"}, {"chal"}}[r.Intn(7)]
 		script := append([]string{"sup", "auth:" + vh.Hex([]byte(cls))}, tail...)
 		if r.Intn(6) == 0 {
 			script = [][]string{{"sup", "rdy"}, {"sup"}, {"rdy"}, {"sup", "succ"}, {"sup", "other"}, {"succ"}}[r.Intn(6)]
 		}
-		op := "hsnoauth " + strings.Join(script, " ")
-		a := exec(op)
-		out.Case(op, a, "oracle/hsnoauth/"+strings.Fields(a)[0], true)
+		add("hsnoauth "+strings.Join(script, " "), func(a string) string { return "oracle/hsnoauth/" + first(a) })
 		al := genAllowed(r, cls)
-		op = "disclose pw:" + vh.Hex(genCred(r)) + ":" + vh.Hex(genCred(r)) + ":" + al + " " + vh.Hex([]byte(cls))
-		a = exec(op)
-		c := "token"
-		if a == "none" {
-			c = "none"
-		}
-		out.Case(op, a, "oracle/disclose/"+c, true)
+		add("disclose pw:"+vh.Hex(genCred(r))+":"+vh.Hex(genCred(r))+":"+al+" "+vh.Hex([]byte(cls)), tokOrNone("oracle/disclose/"))
 		host, hc := genHost(r)
 		if host != "" {
-			op = "snihost " + vh.Hex([]byte(host)) + " " + vh.Hex([]byte(fmt.Sprint(1+r.Intn(65535))))
-			out.Case(op, exec(op), "oracle/snihost/"+hc, true)
+			add("snihost "+vh.Hex([]byte(host))+" "+vh.Hex([]byte(fmt.Sprint(1+r.Intn(65535)))), fixed("oracle/snihost/"+hc))
 		}
+		// configurations without credentials for the dialled host (nothing configured / provider hands out none)
+		cfg := genNoCred(r, cls)
+		sc := genScript(r, cls)
+		if i%2 == 0 {
+			sc = script
+		}
+		pk := "noprovider"
+		if !strings.HasSuffix(cfg, "prov=-") {
+			pk = "provider-nil"
+		}
+		add(strings.TrimSpace("nocred "+cfg+" "+strings.Join(sc, " ")), func(a string) string { return "oracle/nocred/" + pk + "/" + first(a) })
+		// per-host password credentials
+		add("disclose2 "+genPwConn(r, cls)+" "+vh.Hex([]byte(cls)), tokOrNone("oracle/disclose2/"))
+	}
+	// NewSession: Authenticator and AuthProvider are mutually exclusive
+	for i := 0; i < 12*hm; i++ {
+		cls := genClass(r)
+		h := 1 + r.Intn(3)
+		static, prov := "none", "-"
+		if i%4 >= 2 {
+			static = genAuthImpl(r, cls)
+		}
+		if i%2 == 1 {
+			prov = genProvider(r, cls, h, "")
+		}
+		// (scripts without AUTH_CHALLENGE: the known fatal input of the challenge loop is not this op's subject)
+		sc := [][]string{{"sup", "rdy"}, {"sup", "auth:" + vh.Hex([]byte(cls)), "succ"}, {"sup", "auth:" + vh.Hex([]byte(cls))}, {}, {"sup", "err"}}[r.Intn(5)]
+		add(strings.TrimSpace(fmt.Sprintf("sesscfg host=%d static=%s prov=%s ", h, static, prov)+strings.Join(sc, " ")),
+			func(a string) string { return "oracle/sesscfg/" + first(a) })
+	}
+	// property monitors on the observed trace (never both Authenticator and AuthProvider: NewSession refuses that)
+	for i := 0; i < 500*hm; i++ {
+		cls := genClass(r)
+		cfg := genConn(r, cls)
+		for !strings.Contains(cfg, "static=none") && !strings.HasSuffix(cfg, "prov=-") {
+			cfg = genConn(r, cls)
+		}
+		sc := genScript(r, cls)
+		if i%4 == 0 {
+			var a string
+			a, sc = genCoherent(r, cls)
+			h := 1 + r.Intn(3)
+			cfg = fmt.Sprintf("host=%d static=%s prov=-", h, a)
+			if r.Bool() {
+				cfg = fmt.Sprintf("host=%d static=none prov=%s", h, genProvider(r, cls, h, a))
+			}
+		}
+		kind, _ := credentialsFor(parseScenario("mon " + cfg))
+		add(strings.TrimSpace("mon "+cfg+" "+strings.Join(sc, " ")), func(a string) string { return "oracle/mon/" + kind + "/" + first(a) })
+	}
+	// "only after TLS verification as configured": real TLS endpoints, the session's own dialer, several hosts
+	for i := 0; i < 100*hm; i++ {
+		args := genTLSArgs(r)
+		add("tlscred "+args, func(a string) string {
+			switch {
+			case strings.Contains(a, "cred=1") && strings.Contains(a, "proceeded=0"):
+				return "oracle/tlscred/mixed"
+			case strings.Contains(a, "cred=1"):
+				return "oracle/tlscred/disclosed"
+			case strings.Contains(a, "proceeded=1"):
+				return "oracle/tlscred/proceeded"
+			}
+			return "oracle/tlscred/refused"
+		})
 	}
 	// setupTLSConfig: the whole finite domain of (config, EnableHostVerification) x file states
 	cfgs := []string{"nil"}
@@ -757,9 +1043,7 @@ func main() {
 						if r.Bool() {
 							spare = "1"
 						}
-						op := strings.Join([]string{"tls", cfg, ehv, ca, cert, key, spare}, " ")
-						a := exec(op)
-						out.Case(op, a, "tls/"+strings.Fields(a)[0], true)
+						add(strings.Join([]string{"tls", cfg, ehv, ca, cert, key, spare}, " "), func(a string) string { return "tls/" + first(a) })
 					}
 				}
 			}
@@ -772,8 +1056,7 @@ func main() {
 		op := "join " + vh.Hex([]byte(host)) + " " + vh.Hex([]byte(port))
 		addr := ":" + port
 		if host != "" { // an empty hostname makes HostnameAndPort fall back to the connect address
-			a := exec(op)
-			out.Case(op, a, "join/"+cls, true)
+			a := add(op, fixed("join/"+cls))
 			addr = string(mustHex(a))
 		}
 		switch r.Intn(6) {
@@ -792,39 +1075,35 @@ func main() {
 		if r.Intn(3) == 0 {
 			ins = "1"
 		}
-		op = "sni " + ins + " " + sn + " " + vh.Hex([]byte(addr))
-		a := exec(op)
-		out.Case(op, a, "sni/"+cls+"/"+a[strings.LastIndex(a, " ")+1:], true)
+		add("sni "+ins+" "+sn+" "+vh.Hex([]byte(addr)), func(a string) string { return "sni/" + cls + "/" + a[strings.LastIndex(a, " ")+1:] })
 	}
 	// approve / Challenge
 	for i := 0; i < 3000*mult; i++ {
 		cls := genClass(r)
 		al := genAllowed(r, cls)
-		op := "approve " + vh.Hex([]byte(cls)) + " " + al
-		a := exec(op)
-		out.Case(op, a, "approve/"+a, true)
-		op = "challenge " + vh.Hex(genCred(r)) + " " + vh.Hex(genCred(r)) + " " + al + " " + vh.Hex([]byte(cls))
-		a = exec(op)
-		c := "token"
-		if a == "err" {
-			c = "err"
-		}
-		out.Case(op, a, "challenge/"+c, true)
+		add("approve "+vh.Hex([]byte(cls))+" "+al, func(a string) string { return "approve/" + a })
+		add("challenge "+vh.Hex(genCred(r))+" "+vh.Hex(genCred(r))+" "+al+" "+vh.Hex([]byte(cls)), func(a string) string {
+			if a == "err" {
+				return "challenge/err"
+			}
+			return "challenge/token"
+		})
 	}
 	for _, d := range defaults {
-		op := "approve " + vh.Hex([]byte(d)) + " none"
-		out.Case(op, exec(op), "approve/default-list", true)
+		add("approve "+vh.Hex([]byte(d))+" none", fixed("approve/default-list"))
 	}
 	// start-up handshake against a scripted peer
+	outcomeClass := func(pfx string) func(string) string {
+		return func(a string) string {
+			if i := strings.Index(a, ":"); i > 0 && (strings.HasPrefix(a, "crash:") || strings.HasPrefix(a, "hang:")) {
+				return pfx + first(a)
+			}
+			return pfx + a[strings.LastIndex(a, "=")+1:]
+		}
+	}
 	frames := []string{"sup", "rdy", "chal", "succ", "err", "other", "auth"}
 	hs := func(auth string, script []string) {
-		op := "hs " + auth + " " + strings.Join(script, " ")
-		op = strings.TrimSpace(op)
-		a := exec(op)
-		if strings.HasPrefix(a, "not-executed") {
-			return
-		}
-		out.Case(op, a, "hs/"+a[strings.LastIndex(a, "=")+1:], true)
+		add(strings.TrimSpace("hs "+auth+" "+strings.Join(script, " ")), outcomeClass("hs/"))
 	}
 	mk := func(f string) string {
 		if f == "auth" {
@@ -833,13 +1112,16 @@ func main() {
 		return f
 	}
 	genAuth := func(cls string) string {
-		if r.Intn(3) == 0 {
+		switch r.Intn(6) {
+		case 0, 1:
 			return "none"
+		case 2:
+			return genCustom(r)
 		}
-		return "pw:" + vh.Hex(genCred(r)) + ":" + vh.Hex(genCred(r)) + ":" + genAllowed(r, cls)
+		return genPw(r, cls)
 	}
-	// exhaustive scripts up to length 3 over the frame kinds (class names generated), both auth settings
-	for rep := 0; rep < mult; rep++ {
+	// exhaustive scripts up to length 3 over the frame kinds (class names generated), all kinds of authenticator
+	for rep := 0; rep < hm; rep++ {
 		for l := 0; l <= 3; l++ {
 			n := 1
 			for i := 0; i < l; i++ {
@@ -863,11 +1145,49 @@ func main() {
 			}
 		}
 	}
-	// the property's own scenario, many class names
-	for i := 0; i < 300*mult; i++ {
+	// the property's own scenario, many class names, challenge rounds
+	for i := 0; i < 300*hm; i++ {
 		cls := genClass(r)
-		tail := [][]string{{}, {"succ"}, {"rdy"}, {"err"}, {"other"}, {"succ", "rdy"}}[r.Intn(6)]
-		hs(genAuth(cls), append([]string{"sup", "auth:" + vh.Hex([]byte(cls))}, tail...))
+		if i%6 == 0 {
+			hs(genCoherent(r, cls))
+			continue
+		}
+		hs(genAuth(cls), genAuthScript(r, cls))
+	}
+	// Conn.init: Authenticator / AuthProvider per host x server scripts, through the session's own connection config
+	for i := 0; i < 700*hm; i++ {
+		cls := genClass(r)
+		if i%8 == 0 { // a working multi-round authenticator, configured statically or handed out by the provider
+			a, sc := genCoherent(r, cls)
+			h := 1 + r.Intn(3)
+			cfg := fmt.Sprintf("host=%d static=%s prov=-", h, a)
+			if r.Bool() {
+				cfg = fmt.Sprintf("host=%d static=none prov=%s", h, genProvider(r, cls, h, a))
+			}
+			add("hsx "+cfg+" "+strings.Join(sc, " "), outcomeClass("hsx/"))
+			continue
+		}
+		add(strings.TrimSpace("hsx "+genConn(r, cls)+" "+strings.Join(genScript(r, cls), " ")), outcomeClass("hsx/"))
+	}
+	for i := 0; i < 100*hm; i++ {
+		add("tlsx "+genTLSArgs(r), func(a string) string {
+			if strings.Contains(a, "tls=fail") {
+				return "tlsx/some-rejected"
+			}
+			return "tlsx/all-accepted"
+		})
+	}
+	// the public entry point: NewSession with a scripted HostDialer
+	for i := 0; i < 120*hm; i++ {
+		cls := genClass(r)
+		add(strings.TrimSpace("newsession "+genConn(r, cls)+" "+strings.Join(genScript(r, cls), " ")), outcomeClass("newsession/"))
+	}
+	resolve()
+	if slowCase != nil {
+		cases = append(cases, slowCase)
+	}
+	for _, c := range cases {
+		out.Case(c.op, c.ans, c.class(c.ans), true)
 	}
 	out.Close(nil)
 }
